@@ -107,10 +107,6 @@ func (sb *SampleBlock) Populate(ctx context.Context, eds eds.Accessor) error {
 
 func (sb *SampleBlock) UnmarshalFn(root *share.AxisRoots) UnmarshalFn {
 	return func(cntrData, idData []byte) error {
-		if !sb.Container.IsEmpty() {
-			return nil
-		}
-
 		sid, err := shwap.SampleIDFromBinary(idData)
 		if err != nil {
 			return fmt.Errorf("unmarhaling SampleID: %w", err)
@@ -134,6 +130,11 @@ func (sb *SampleBlock) UnmarshalFn(root *share.AxisRoots) UnmarshalFn {
 			return fmt.Errorf("validating Sample for %+v: %w", sb.ID, err)
 		}
 
+		// a Block that is populated already keeps what it has, but whatever else arrives for
+		// its identifier is still verified: the hasher must not vouch for data nobody looked at
+		if !sb.Container.IsEmpty() {
+			return nil
+		}
 		sb.Container = cntr
 		return nil
 	}
